@@ -35,8 +35,10 @@ import (
 )
 
 type op struct {
-	K string `json:"k"`           // line frag crlf truncate rename copytruncate delete recreate idle
-	D string `json:"d,omitempty"` // payload (quoted)
+	K string `json:"k"`           // line frag crlf rep truncate rename copytruncate delete recreate idle
+	D string `json:"d,omitempty"` // payload (quoted); for rep the unit that is repeated
+	N int    `json:"n,omitempty"` // rep: number of repetitions
+	T string `json:"t,omitempty"` // rep: what follows the repetitions (quoted)
 }
 
 type fcase struct {
@@ -163,6 +165,10 @@ func execute(dir string, init *string, ops []op) []string {
 			if exists {
 				appendTo(path, d+"\r\n")
 			}
+		case "rep":
+			if exists {
+				appendTo(path, strings.Repeat(d, o.N)+vlib.UnQ(o.T)) // one write
+			}
 		case "truncate":
 			if exists {
 				must(os.Truncate(path, 0))
@@ -255,6 +261,8 @@ func generations(init *string, ops []op) []generation {
 			cur += d
 		case "crlf":
 			cur += d + "\r\n"
+		case "rep":
+			cur += strings.Repeat(d, o.N) + vlib.UnQ(o.T)
 		case "truncate", "copytruncate":
 			end(o.K)
 		case "rename":
@@ -286,15 +294,42 @@ func same(a, b []string) bool {
 // judge compares what was delivered with the generations; on a difference it
 // names the operation that ended the first generation whose lines are wrong
 // and how its fragment fared.
-func judge(init *string, ops []op, got []string) (class, what string) {
-	gens := generations(init, ops)
-	var want []string
-	for _, g := range gens {
-		want = append(want, g.want...)
+// brief renders a line list; long ones are cut around the first difference.
+func brief(a, other []string) string {
+	if len(a) <= 40 {
+		return fmt.Sprintf("%q", a)
 	}
-	if same(want, got) {
+	d := 0
+	for d < len(a) && d < len(other) && a[d] == other[d] {
+		d++
+	}
+	lo, hi := d-2, d+3
+	if lo < 0 {
+		lo = 0
+	}
+	if hi > len(a) {
+		hi = len(a)
+	}
+	return fmt.Sprintf("(%d lines; lines %d..%d: %q)", len(a), lo, hi-1, a[lo:hi])
+}
+
+func judge(init *string, ops []op, gotFull []string) (class, what string) {
+	gens := generations(init, ops)
+	var wantFull []string
+	for _, g := range gens {
+		wantFull = append(wantFull, g.want...)
+	}
+	if same(wantFull, gotFull) {
 		return "", ""
 	}
+	class, what = judge1(gens, wantFull, gotFull)
+	if len(gotFull) > 40 || len(wantFull) > 40 {
+		what = fmt.Sprintf("delivered %s, the property requires %s", brief(gotFull, wantFull), brief(wantFull, gotFull))
+	}
+	return class, what
+}
+
+func judge1(gens []generation, want, got []string) (class, what string) {
 	pos := 0
 	for _, g := range gens {
 		n := len(g.want)
@@ -329,16 +364,34 @@ func coqCase(id uint64, c fcase) string {
 	if c.Init != nil {
 		init = vlib.Some(tlib.H(vlib.UnQ(*c.Init)))
 	}
+	big := false
 	xs := make([]string, len(c.Ops))
 	for i, o := range c.Ops {
 		switch o.K {
 		case "line", "frag", "crlf", "rename":
 			xs[i] = vlib.App(coqOp[o.K], tlib.H(vlib.UnQ(o.D)))
+		case "rep":
+			big = true
+			xs[i] = vlib.App("AppendRep", tlib.H(vlib.UnQ(o.D)), vlib.Nat(o.N), tlib.H(vlib.UnQ(o.T)))
 		default:
 			xs[i] = coqOp[o.K]
 		}
 	}
-	return vlib.App("CFS", vlib.N(id), init, vlib.List(xs), tlib.LS(vlib.UnQs(c.Delivered)))
+	if !big {
+		return vlib.App("CFS", vlib.N(id), init, vlib.List(xs), tlib.LS(vlib.UnQs(c.Delivered)))
+	}
+	// thousands of identical lines: run-length form
+	var runs []string
+	d := vlib.UnQs(c.Delivered)
+	for i := 0; i < len(d); {
+		j := i
+		for j < len(d) && d[j] == d[i] {
+			j++
+		}
+		runs = append(runs, vlib.App("R", tlib.H(d[i]), vlib.Nat(j-i)))
+		i = j
+	}
+	return vlib.App("CFSR", vlib.N(id), init, vlib.List(xs), vlib.List(runs))
 }
 
 func nontrivial(ops []op) bool {
@@ -346,7 +399,7 @@ func nontrivial(ops []op) bool {
 	appended, ended := false, false
 	for _, o := range ops {
 		switch o.K {
-		case "line", "frag", "crlf":
+		case "line", "frag", "crlf", "rep":
 			if ended {
 				return true
 			}
@@ -397,19 +450,33 @@ func main() {
 	}
 
 	q := vlib.Q
-	base := []op{{"line", q("one")}, {"frag", q("pa")}, {"crlf", q("cr")}, {"truncate", ""}, {"rename", ""},
-		{"copytruncate", ""}, {"delete", ""}, {"recreate", ""}, {"idle", ""}, {"rename", q("nw\nx")}}
+	base := []op{{K: "line", D: q("one")}, {K: "frag", D: q("pa")}, {K: "crlf", D: q("cr")}, {K: "truncate", D: ""}, {K: "rename", D: ""},
+		{K: "copytruncate", D: ""}, {K: "delete", D: ""}, {K: "recreate", D: ""}, {K: "idle", D: ""}, {K: "rename", D: q("nw\nx")},
+		// a CRLF whose CR and LF arrive in different appends: fragment ending
+		// in CR, the tailer observes, then a bare newline
+		{K: "frag", D: q("s\r")}, {K: "line", D: q("")}}
 	pre := "old\nfr"
 	inits := []*string{&pre, nil}
 
 	// ---- the two histories of DESIGN.md section 6 first ----
-	run(&pre, []op{{"line", q("one")}, {"frag", q("part")}, {"truncate", ""}, {"line", q("two")}}, true, "witness")
-	run(&pre, []op{{"line", q("one")}, {"frag", q("part")}, {"rename", ""}, {"line", q("two")}}, true, "witness")
+	run(&pre, []op{{K: "line", D: q("one")}, {K: "frag", D: q("part")}, {K: "truncate", D: ""}, {K: "line", D: q("two")}}, true, "witness")
+	run(&pre, []op{{K: "line", D: q("one")}, {K: "frag", D: q("part")}, {K: "rename", D: ""}, {K: "line", D: q("two")}}, true, "witness")
+
+	// ---- a line ending exactly on the 131072-byte read boundary ----
+	// The stream reads at most 131072 bytes per Read; after the tailer has
+	// observed everything, one append of 16383 eight-byte CRLF lines followed
+	// by "abcdefg\r\n" puts that line's CR at byte 131071 and its LF at byte
+	// 131072 of the unread data: they arrive in different reads.
+	bigCRLF := op{K: "rep", D: q("xxxxxx\r\n"), N: 16383, T: q("abcdefg\r\nend\n")}
+	bigLF := op{K: "rep", D: q("xxxxxxx\n"), N: 16383, T: q("abcdefg\nend")}
+	run(&pre, []op{{K: "frag", D: q("pa")}, bigCRLF, {K: "line", D: q("after")}}, true, "boundary")
+	run(&pre, []op{{K: "line", D: q("one")}, {K: "rename", D: ""}, bigCRLF, {K: "truncate", D: ""}, bigLF}, true, "boundary")
+	run(nil, []op{{K: "recreate", D: ""}, bigLF, {K: "frag", D: q("s\r")}, {K: "line", D: q("")}}, true, "boundary")
 
 	// ---- exhaustive short histories ----
-	full, sampleLen, samplePer1000 := 3, 4, 100
+	full, sampleLen, samplePer1000 := 3, 4, 40
 	if a.Thorough() {
-		full, sampleLen, samplePer1000 = 4, 5, 80
+		full, sampleLen, samplePer1000 = 4, 5, 30
 	}
 	swept := 0
 	var rec func(prefix []op, n int, init *string, sample int)
@@ -463,25 +530,25 @@ func main() {
 		for j := range ops {
 			switch x := rng.Intn(100); {
 			case x < 25:
-				ops[j] = op{"line", q(payload())}
+				ops[j] = op{K: "line", D: q(payload())}
 			case x < 45:
-				ops[j] = op{"frag", q(payload())}
+				ops[j] = op{K: "frag", D: q(payload())}
 			case x < 55:
-				ops[j] = op{"crlf", q(payload())}
+				ops[j] = op{K: "crlf", D: q(payload())}
 			case x < 65:
-				ops[j] = op{"truncate", ""}
+				ops[j] = op{K: "truncate", D: ""}
 			case x < 70:
-				ops[j] = op{"rename", ""}
+				ops[j] = op{K: "rename", D: ""}
 			case x < 75:
-				ops[j] = op{"rename", q(payload() + vlib.Pick(rng, []string{"", "\n", "\r\n"}))}
+				ops[j] = op{K: "rename", D: q(payload() + vlib.Pick(rng, []string{"", "\n", "\r\n"}))}
 			case x < 82:
-				ops[j] = op{"copytruncate", ""}
+				ops[j] = op{K: "copytruncate", D: ""}
 			case x < 88:
-				ops[j] = op{"delete", ""}
+				ops[j] = op{K: "delete", D: ""}
 			case x < 95:
-				ops[j] = op{"recreate", ""}
+				ops[j] = op{K: "recreate", D: ""}
 			default:
-				ops[j] = op{"idle", ""}
+				ops[j] = op{K: "idle", D: ""}
 			}
 		}
 		var init *string
